@@ -16,6 +16,15 @@ package main
 //	... the call completes on both sides; both keep their objects ...
 //	pass by pass: mutate S, R must not change; mutate R, S must not change
 //	generated messages: the two object graphs hold no common address
+//
+// Kind "unary-cancelled" (request direction only) is the one way a unary caller
+// gets control back while its request is still in flight: the handler cancels
+// the call's context before it decodes and waits for the sender's token; Invoke
+// returns Canceled, the caller mutates S and passes the token; the handler then
+// decodes (the second line of the protocol above, for Invoke). No schedule is
+// explored (that is the E1 part); this only puts the place where Invoke takes
+// its private copy of the request next to the two SendMsg of the streams, for
+// every shape and cloner configuration.
 
 import (
 	"bytes"
@@ -38,8 +47,8 @@ import (
 
 type kase struct {
 	Engine  string `json:"engine"` // always "E2"
-	Cloner  string `json:"cloner"` // default | CodecCloner | CloneFunc | CopyFunc
-	Kind    string `json:"kind"`   // unary | client-stream | server-stream | bidi
+	Cloner  string `json:"cloner"` // default | CodecCloner | CloneFunc | CopyFunc | CopyFunc/reuse | CodecCloner/reuse (userfn.go)
+	Kind    string `json:"kind"`   // unary | client-stream | server-stream | bidi | unary-cancelled
 	Dir     string `json:"dir"`    // req | resp: the direction that carries the shape
 	Shape   string `json:"shape"`
 	SendRep string `json:"send_rep"` // gen | dyn
@@ -62,7 +71,8 @@ func (k kase) count() int {
 	return 1
 }
 
-// streamed: the message under test goes through a stream's SendMsg (so the sender gets control back before the receiver receives)
+// streamed: the sender gets control back before the receiver receives (the message under test goes through a
+// stream's SendMsg, or through an Invoke that returns early)
 func (k kase) streamed() bool { return k.Kind != "unary" }
 
 type finding struct {
@@ -84,9 +94,10 @@ type run struct {
 	snapCanon [][]byte
 	R         []interface{} // the receiver's objects
 
-	tok   chan int
-	abort chan struct{}
-	once  sync.Once
+	tok    chan int
+	abort  chan struct{}
+	cancel context.CancelFunc // of the client's call
+	once   sync.Once
 }
 
 func (r *run) add(clause, what string) {
@@ -180,7 +191,9 @@ func (r *run) received(dest interface{}, inHandler bool) {
 		gb, _ := detMarshal.Marshal(g)
 		clause, detail := "received-not-equal", ""
 		if cur, err := normalize(sent); err == nil && r.k.streamed() && proto.Equal(g, cur) {
-			clause, detail = "sender-mutation-after-send-visible", "it equals the sender's object as mutated AFTER SendMsg had returned: the send did not take a copy"
+			clause, detail = "sender-mutation-after-send-visible", "it equals the sender's object as mutated AFTER the send (SendMsg, or Invoke for a cancelled unary call) had returned: the library did not take a private copy, or its copy shares memory with the sender's object"
+		} else if via := mutatedLike(g, snap); r.k.streamed() && via != nil {
+			clause, detail = "sender-mutation-after-send-visible", fmt.Sprintf("it equals the message handed over with the in-place mutations %v applied, which the sender made to its own object AFTER the send (SendMsg, or Invoke for a cancelled unary call) had returned: the library's private copy shares that memory with the sender's object", via)
 		} else if r.k.Fill != "" {
 			merged := proto.Clone(specByName[r.k.Fill].build())
 			proto.Merge(merged, snap)
@@ -206,6 +219,36 @@ func (r *run) received(dest interface{}, inHandler bool) {
 			r.add("aliased:via="+viaOf(shared), fmt.Sprintf("the handler mutated the request it received (message #%d) in place before returning and the caller's request object changed (passes %v)", i, shared))
 		}
 	}
+}
+
+// mutatedLike: diagnosis of a received message that differs from what was handed
+// over. The sender applied every pass of the in-place mutator to its object after
+// the send had returned; if the received message is the snapshot with some of
+// those passes applied, part of the sender's later writes reached the receiver.
+// Returns those passes, nil if no subset explains the difference.
+func mutatedLike(got, snap proto.Message) (via []string) {
+	defer func() {
+		if recover() != nil {
+			via = nil
+		}
+	}()
+	for set := 1; set < 1<<len(passes); set++ {
+		c := proto.Clone(snap)
+		var names []string
+		for i, pass := range passes {
+			if set&(1<<i) != 0 {
+				if mutate(c, pass) == 0 {
+					names = nil
+					break
+				}
+				names = append(names, pass)
+			}
+		}
+		if names != nil && proto.Equal(got, c) {
+			return names
+		}
+	}
+	return nil
 }
 
 // afterCall: both sides kept their objects; the call is over.
@@ -243,6 +286,12 @@ func (r *run) guard(where string, perr *error) {
 func (r *run) unaryHandler(ctx context.Context, dec func(interface{}) error) (resp interface{}, err error) {
 	defer r.guard("the unary handler", &err)
 	if r.k.Dir == "req" {
+		if r.k.Kind == "unary-cancelled" {
+			r.cancel() // Invoke returns; the caller has its request back
+			if !r.awaitToken() {
+				return nil, status.Error(codes.Aborted, "aborted")
+			}
+		}
 		d := r.newDest()
 		if err := dec(d); err != nil {
 			r.fail("request decoding failed: " + err.Error())
@@ -314,6 +363,17 @@ func (r *run) client(cc grpc.ClientConnInterface) {
 	defer r.guard("a client call", nil)
 	ctx, cancel := context.WithCancel(context.Background())
 	defer cancel()
+	r.cancel = cancel
+	if r.k.Kind == "unary-cancelled" {
+		var out wrapperspb.StringValue
+		err := cc.Invoke(ctx, "/verif.C06/Unary", r.newS(), &out)
+		if status.Code(err) != codes.Canceled {
+			r.fail(fmt.Sprintf("Invoke of a call cancelled before the handler decoded returned %v, expected Canceled", err))
+			return
+		}
+		r.afterSend(0)
+		return
+	}
 	if r.k.Kind == "unary" {
 		if r.k.Dir == "req" {
 			var out wrapperspb.StringValue
